@@ -55,6 +55,7 @@ def make_device(d, rng):
               eof_after_bytes=d.pop("eof_after_bytes", None), unsolicited=unsol, drop_at=d.pop("drop_at", None))
     cut = d.pop("cut_reply", None)
     pause = d.pop("pause", None)
+    burst = d.pop("burst", False)
     if typ == "recorded":
         dev = devices.Recorded(d.pop("name"), **kw)
         dev.cut_reply = cut
@@ -63,6 +64,7 @@ def make_device(d, rng):
     dev = _scripted(d, kw)
     dev.cut_reply = cut
     dev.pause = pause
+    dev.burst = burst          # the lines of a multi-line answer leave the receiver in one segment
     return dev
 
 
